@@ -680,6 +680,18 @@ func run(tmp string, c tcase) string {
 			flags.Output = outs
 			verr := cli.ValidateFlags(flags)
 			vf = " vf=" + hx.B(verr == nil)
+			if verr != nil && !known {
+				// refused, as it must be: the binary stops here (main calls ValidateFlags first), so no writer is called. Handing the refused item
+				// to WriteScanResults would make it write to whatever follows its FIRST "=" (for "cdx-xml=x=<path>": a file x in the working directory)
+				// The writers themselves are still asked, directly and with the absolute path: they must refuse the name too and create nothing.
+				_, werr := exportAs(res, p, c.format, flags)
+				_, serr := os.Stat(p)
+				return "purls=- extra=0 st=" + map[bool]string{true: "flag-rejected", false: "ok"}[werr != nil] + " mut=0" + vf + " created=" + hx.B(serr == nil) + " wr=" + hx.B(werr != nil)
+			}
+			if !known && strings.Count(flags.Output[len(flags.Output)-1], "=") != 1 {
+				// accepted although the item does not split into <format>=<path>: reported by the oracle (vf=1); never written
+				return "purls=- extra=0 st=ok mut=0" + vf + " created=0"
+			}
 			if verr != nil && known {
 				// the command line refuses these flags: nothing is exported (legitimate only for flag values that are themselves invalid)
 				debugf("ValidateFlags: %v", verr)
@@ -1085,6 +1097,11 @@ func main() {
 	tmp, err := os.MkdirTemp("", "c15gen-*")
 	must(err)
 	defer os.RemoveAll(tmp)
+	// Nothing this process writes may land outside its temp directory: a relative path reaching a writer (an -o item the cli splits differently
+	// than the harness composed it) resolves inside it too.
+	cwd, err := os.MkdirTemp(tmp, "cwd")
+	must(err)
+	must(os.Chdir(cwd))
 	out := hx.NewOut()
 	defer func() {
 		out.Flush()
